@@ -80,14 +80,20 @@ ObsChunk(r) == IF ~r.lua.started THEN "none"
                ELSE IF RefOk(r) /\ r.lua.chunk_digest = r.ref.lua_digest /\ r.lua.chunk_len = r.ref.lua_len THEN "complete"
                ELSE "partial"
 
-\* does stdout carry the run's output as the spec says? (the reference output is what minilua prints for the reference Lua)
-RunOutputConforms(r, want) ==
-    CASE want = "all"    -> r.so.lcp_out = r.ref.run.out_len /\ r.so.len = r.ref.run.out_len
-      [] want = "prefix" -> r.so.lcp_out = r.ref.run.out_len /\ r.so.len > r.ref.run.out_len
-      [] OTHER           -> TRUE
+\* Was the program executed?  The property speaks of execution, not of what the command prints around it: the
+\* output of the run (what minilua prints for the reference Lua, up to the failure if it fails) must appear on
+\* stdout as one contiguous piece; anything before or after it is free.
+RunOutputConforms(r, want) == (want \in {"all", "prefix"}) => r.so.has_out
 
-Site(e) == [kind |-> e.kind, file |-> e.file, line |-> e.line]
+\* a rendered error block names a file and a line; the wording (and the kind of error) is free
+Site(e) == [file |-> e.file, line |-> e.line]
 Sites(s) == [i \in 1..Len(s) |-> Site(s[i])]
+Occ(s, x) == Cardinality({i \in 1..Len(s) : s[i] = x})
+SameBag(a, b) == /\ Len(a) = Len(b)
+                 /\ \A i \in 1..Len(a) : Occ(a, a[i]) = Occ(b, a[i])
+
+\* whether the child `lua` is started before the compiler has accepted the program is free
+ChunkNorm(o) == IF o = "none" THEN "empty" ELSE o
 
 NCompile(e) == Cardinality({i \in 1..Len(e) : e[i] = "compile"})
 Has(e, x) == \E i \in 1..Len(e) : e[i] = x
@@ -96,16 +102,18 @@ Has(e, x) == \E i \in 1..Len(e) : e[i] = x
 (* What disagrees between the final spec state and record r (the spec variables are read at pc = "done") *)
 R == Rec[k]
 
-\* sylt prints its errors on stdout: when stdout itself is the unwritable path nothing printed there can be observed
+\* when stdout itself is the unwritable path nothing printed there can be observed
 StdoutObservable == cfg.path # "unwritable"
 
+\* r.blocks: the error blocks found on stdout and stderr of the command; r.ref.blocks: the blocks the same recogniser
+\* finds in the library's own rendering of the library's error list for the same files (both from the current tree)
 ErrorsWhat(r) ==
     LET want == NCompile(printed)  got == Len(r.blocks) IN
     IF ~StdoutObservable THEN {}
     ELSE IF want = 0 /\ got > 0 THEN {"errors-spurious"}
     ELSE IF got < want THEN {"errors-missing"}
     ELSE IF got > want THEN {"errors-extra"}
-    ELSE IF want > 0 /\ Sites(r.blocks) # Sites(r.ref.errors) THEN {"errors-location"}
+    ELSE IF want > 0 /\ ~SameBag(Sites(r.blocks), Sites(r.ref.blocks)) THEN {"errors-location"}
     ELSE {}
 
 LuaErrWhat(r) == IF Has(printed, "lua") /\ ~(r.lua.err_len > 0 /\ r.lua.msg_printed) THEN {"errors-missing"} ELSE {}
@@ -122,13 +130,14 @@ FsWhat(r) == LET o == ObsFs(r) IN
              ELSE {"file-state"}
 
 SoWhat(r) == LET o == ObsSoProg(r) IN
-             IF o = soprog THEN (IF exit = "zero" /\ cfg.mode = "file" /\ r.so.len > 0 THEN {"stdout"} ELSE {})
+             IF o = soprog THEN {}
              ELSE IF o = "partial" THEN {"partial-stdout"} ELSE {"stdout"}
 
-ChunkWhat(r) == IF ObsChunk(r) = chunk THEN {} ELSE {"chunk"}
+ChunkWhat(r) == IF ChunkNorm(ObsChunk(r)) = ChunkNorm(chunk) THEN {} ELSE {"chunk"}
 
 RunWhat(r) == IF RunOutputConforms(r, sorun) THEN {} ELSE {"run-output"}
 
+\* (where the property leaves the status open the replayed behaviour was chosen by the recorded status: see TraceStep)
 ExitWhat(r) == IF r.timed_out THEN {"hang"} ELSE IF ObsExit(r) = exit THEN {} ELSE {"exit"}
 
 \* a complete program was emitted somewhere, according to the spec
@@ -144,7 +153,7 @@ RequireWhat(r) ==
     IF ~(Emits /\ e.present) THEN {}
     ELSE IF ~e.pre_ok \/ e.n_req_pre # 0 THEN {"require"}
     ELSE IF cfg.req
-      THEN IF /\ e.n_req = 1 /\ e.req_at = 0                       \* once, immediately after the preamble's end marker
+      THEN IF /\ e.n_req = 1 /\ e.req_lead_blank                   \* once, and nothing but blanks between the preamble's end and it
               /\ e.run.requires = <<ModuleName>>                    \* and executed exactly once, naming M
               /\ (q.emit.present => e.wo_req_digest = q.emit.digest)   \* in front of the unchanged program
            THEN {} ELSE {"require"}
@@ -154,12 +163,13 @@ RequireWhat(r) ==
 NoStdWhat(r) ==
     LET p == Rec[Flip(k)] IN
     IF cfg.std THEN {}
-    ELSE IF /\ ObsExit(r) = ObsExit(p) /\ ObsFs(r) = ObsFs(p) /\ ObsSoProg(r) = ObsSoProg(p) /\ ObsChunk(r) = ObsChunk(p)
-            /\ Sites(r.blocks) = Sites(p.blocks)
+    ELSE IF /\ ObsExit(r) = ObsExit(p) /\ ObsFs(r) = ObsFs(p) /\ ObsSoProg(r) = ObsSoProg(p)
+            /\ ChunkNorm(ObsChunk(r)) = ChunkNorm(ObsChunk(p))
+            /\ SameBag(Sites(r.blocks), Sites(p.blocks))
             /\ r.emit.present = p.emit.present
-            /\ r.emit.pre_digest = p.emit.pre_digest
-            /\ r.emit.run.status = p.emit.run.status /\ r.emit.run.out_digest = p.emit.run.out_digest
-            /\ (cfg.mode = "run" /\ CompileSucceeds(cfg)) => (r.so.lcp_out = p.so.lcp_out /\ r.ref.run.out_digest = p.ref.run.out_digest)
+            /\ r.emit.pre_digest = p.emit.pre_digest          \* the same runtime preamble
+            /\ r.emit.run.status = p.emit.run.status /\ r.emit.run.out_digest = p.emit.run.out_digest   \* the emitted programs behave alike
+            /\ (cfg.mode = "run" /\ CompileSucceeds(cfg)) => (r.so.has_out = p.so.has_out /\ r.ref.run.out_digest = p.ref.run.out_digest)
          THEN {} ELSE {"no-std"}
 
 Fails(r) == ExitWhat(r) \cup ErrorsWhat(r) \cup LuaErrWhat(r) \cup IoErrWhat(r) \cup FsWhat(r) \cup SoWhat(r)
@@ -181,9 +191,14 @@ RecordWellFormed(i) ==
     /\ Assert(r.cfg = c, <<"universe mismatch at record", i, r.cfg, c>>)
     /\ Assert((r.ref.class = "ok") = CompileSucceeds(c), <<"program not in its class (accept/reject)", i, r.ref.class>>)
     /\ Assert(r.ref.run.status \in WantStatus(c), <<"program not in its class (run)", i, r.ref.run.status>>)
-    /\ Assert(~CompileSucceeds(c) => Len(r.ref.errors) \in ErrCounts(c), <<"program has another number of errors", i, Len(r.ref.errors)>>)
+    /\ Assert(~CompileSucceeds(c) => Len(r.ref.errors) \in ErrCounts(c), <<"rejected program without errors, or with more than MaxErrs", i, Len(r.ref.errors)>>)
+    /\ Assert(Len(r.ref.blocks) = Len(r.ref.errors), <<"the block recogniser does not find one block per library error", i, Len(r.ref.blocks), Len(r.ref.errors)>>)
     /\ Assert(c.std \/ r.ref.run.out_len = 0, <<"std-free program prints", i>>)
     /\ Assert(Canon(i) \in 1..N /\ NoReq(i) \in 1..N /\ Flip(i) \in 1..N, <<"partner outside the trace", i>>)
+
+EarlyIoFailure(r) == /\ cfg.mode = "file" /\ ~Writable(cfg) /\ ~CompileSucceeds(cfg)
+                     /\ Len(r.blocks) = 0                       \* no compile error was printed
+                     /\ r.exit # 0
 
 TraceInit ==
     /\ k \in 1..N
@@ -196,8 +211,14 @@ TraceInit ==
 
 TraceStep ==
     /\ st = "run" /\ ~Done
-    /\ \/ ParseArgs \/ CompileOk \/ CompileErrN(Len(R.ref.errors)) \/ RunOk \/ RunFail
-       \/ WriteStdout \/ WriteStdoutFail \/ WriteFileOk \/ WriteFileFail \/ PrintErrors \/ Exit
+    /\ \/ ParseArgs \/ CompileOk \/ RunOk \/ RunFail
+       \* a rejected program and an unwritable FILE: which of the two the command met first is read off the recording
+       \/ (~EarlyIoFailure(R) /\ CompileErrN(Len(R.ref.errors)))
+       \/ (EarlyIoFailure(R) /\ OutputFailEarly)
+       \/ WriteStdout \/ WriteFileOk \/ WriteFileFail \/ PrintErrors \/ Exit
+       \* an unwritable stdout: the recorded status selects the behaviour where the property leaves it open
+       \/ ((StrictSink \/ R.exit # 0) /\ WriteStdoutFail)
+       \/ (R.exit = 0 /\ WriteStdoutLost)
     /\ UNCHANGED <<k, st>>
 
 TraceAccept ==
